@@ -1477,7 +1477,7 @@ func phase1() {
 					forms(items, "wide-same")
 				}
 			}
-			for _, n := range []int{255, 257, 1000, e.Pick(2000, 20000)} {
+			for _, n := range []int{255, 257, 1000, e.Pick(2000, 6000)} {
 				if round == 1 && n != 257 && n != 1000 {
 					continue
 				}
